@@ -13,6 +13,7 @@ import (
 	"net"
 	"net/http"
 	"os"
+	"runtime"
 	"strings"
 	"sync"
 	"sync/atomic"
@@ -35,6 +36,7 @@ type forwarder struct {
 	conns  map[net.Conn]struct{}
 	wg     sync.WaitGroup
 	closed bool
+	dbg    []string
 }
 
 func newForwarder(target string) (*forwarder, error) {
@@ -56,6 +58,7 @@ func (f *forwarder) track(c net.Conn) bool {
 	if f.closed || !f.up {
 		return false
 	}
+	f.dbg = append(f.dbg, "track "+c.LocalAddr().String()+"<->"+c.RemoteAddr().String())
 	f.conns[c] = struct{}{}
 	return true
 }
@@ -104,6 +107,7 @@ func (f *forwarder) cut(keepDown bool) {
 	for c := range f.conns {
 		cs = append(cs, c)
 	}
+	f.dbg = append(f.dbg, fmt.Sprintf("cut(%v) closes %d", keepDown, len(cs)))
 	f.mu.Unlock()
 	for _, c := range cs {
 		c.Close()
@@ -190,28 +194,16 @@ func genE2ECase(kinds []string) *rapid.Generator[e2eCase] {
 	return rapid.Custom(func(t *rapid.T) e2eCase {
 		var c e2eCase
 		c.HeartbeatMS = rapid.SampledFrom([]int{10, 50, 10000}).Draw(t, "heartbeatMS")
-		c.NoHeldDelete = vstat.IsListed(sigStaleHTTP) && rapid.IntRange(0, 9).Draw(t, "exerciseStale") >= 4
-		ks := kinds
-		if vstat.IsListed(sigGap) && rapid.IntRange(0, 9).Draw(t, "exerciseRace") >= 4 {
-			ks = nil
-			for _, k := range kinds {
-				if k != "race" {
-					ks = append(ks, k)
-				}
-			}
-		}
-		if vstat.IsListed(sigActiveDrop) && rapid.IntRange(0, 9).Draw(t, "exerciseBurst") >= 3 {
-			kk := ks
-			ks = nil
-			for _, k := range kk {
-				if k != "burst" {
-					ks = append(ks, k)
-				}
-			}
-		}
+		// the steering draws are unconditional so that fail files replay identically listed or not
+		c.NoHeldDelete = rapid.IntRange(0, 9).Draw(t, "exerciseStale") >= 4 && vstat.IsListed(sigStaleHTTP)
+		noRace := rapid.IntRange(0, 9).Draw(t, "exerciseRace") >= 4 && vstat.IsListed(sigGap)
+		noBurst := rapid.IntRange(0, 9).Draw(t, "exerciseBurst") >= 3 && vstat.IsListed(sigActiveDrop)
 		n := rapid.IntRange(1, 5).Draw(t, "phases")
 		for i := 0; i < n; i++ {
-			k := rapid.SampledFrom(ks).Draw(t, "phase")
+			k := rapid.SampledFrom(kinds).Draw(t, "phase")
+			if (k == "race" && noRace) || (k == "burst" && noBurst) {
+				k = "up" // steer around a listed finding
+			}
 			min, max := 1, 8
 			switch k {
 			case "up":
@@ -288,8 +280,26 @@ func runE2ECase(t fataler, c e2eCase) {
 		}
 	}
 	inconclusive := func(f string, a ...any) {
-		setInconclusive("%s (history: %s)", fmt.Sprintf(f, a...), strings.Join(hist, "; "))
+		st := sb.Stats()
+		setInconclusive("%s (standby: connected=%v lastSync=%s lastError=%q at %s; active: clients=%d backlog=%d; history: %s)", fmt.Sprintf(f, a...),
+			st.Connected, st.LastSyncTime.Format("15:04:05.000"), st.LastError, st.LastErrorTime.Format("15:04:05.000"),
+			act.syn.VerifSSEClientCount(), act.syn.VerifSSEBacklog(), strings.Join(hist, "; "))
 		dead = true
+		if os.Getenv("C13_DEBUG_STACKS") != "" {
+			fw.mu.Lock()
+			fmt.Fprintf(os.Stderr, "forwarder %s up=%v tracked=%d log=%v\n", fw.addr(), fw.up, len(fw.conns), fw.dbg)
+			for c := range fw.conns {
+				fmt.Fprintf(os.Stderr, "  conn %s -> %s\n", c.LocalAddr(), c.RemoteAddr())
+			}
+			fw.mu.Unlock()
+			buf := make([]byte, 1<<20)
+			n := runtime.Stack(buf, true)
+			for _, g := range strings.Split(string(buf[:n]), "\n\n") {
+				if strings.Contains(g, "pkg/ha") || strings.Contains(g, "forwarder") {
+					fmt.Fprintf(os.Stderr, "%s\n\n", g)
+				}
+			}
+		}
 	}
 	held := func(id string) bool { _, ok := sbStore.GetSession(id); return ok }
 	pause := time.Duration(0)
@@ -356,6 +366,7 @@ func runE2ECase(t fataler, c e2eCase) {
 				compare(what, func(tdiff) string { return sigE2EDiverged })
 			}
 		case "burst":
+			syncBefore := sb.Stats().LastSyncTime
 			do("connected-burst", ph.Changes, false)
 			hist = append(hist[:len(hist)-len(ph.Changes)], fmt.Sprintf("connected-burst:%d changes", len(ph.Changes)))
 			// let the active hand everything it still holds to the stream before the sentinel is pushed,
@@ -368,7 +379,19 @@ func runE2ECase(t fataler, c e2eCase) {
 				cls["burst-overflowed-client-channel"] = true
 			}
 			if quiesce() {
-				compare(what, func(tdiff) string { return sigE2EDiverged })
+				bounced := !sb.Stats().LastSyncTime.Equal(syncBefore)
+				if bounced {
+					cls["burst-link-bounced"] = true // the active disconnected the overflowing client: the burst raced a reconnect
+				}
+				compare(what, func(d tdiff) string {
+					switch {
+					case !bounced:
+						return sigE2EDiverged
+					case extraOnly(d) && vstat.IsListed(sigStaleHTTP):
+						return sigStaleHTTP
+					}
+					return sigGap
+				})
 			}
 		case "down":
 			// the link is cut and stays down while the active moves on; then it is restored
